@@ -1,5 +1,6 @@
 import RoaringModel.Lemmas.BitmapLen
 import RoaringModel.Props.C02
+import RoaringModel.Lemmas.MirrorLemmas
 /-!
 # C08 — relations and cardinality-only operations match the real sets
 
@@ -145,5 +146,30 @@ example : exA.WF ∧ exB.WF := by
 
 example : isSubset exB exA = false ∧ isDisjoint exA exB = false ∧ interLen exA exB = 1
     ∧ unionLen exA exB = 4165 ∧ diffLen exA exB = some 4162 ∧ xorLen exA exB = 4164 := by decide +kernel
+
+/-! ## Fidelity audit (stores): `ArrayStore::intersection_len` through the counting visitor
+
+`notes/fidelity-stores-iter32.md`.  The array∘array kernel under `C08_intersection_len` is `Arr.interLen`, a monomorphic
+copy of the `and` merge that counts.  The Rust (array_store/mod.rs:215-222) runs the *same generic* `scalar::and` as
+`&a & &b`, with the `CardinalityCounter` visitor; `Arr.interLenVisit` is that (`Arr.scalarAnd Arr.cardCounter`).  The
+compiled driver executes it wherever the model calls `Arr.interLen` (`@[csimp]`, unconditional). -/
+
+/-- what the compiled driver runs in place of `Arr.interLen` -/
+theorem C08_driver_runs_interLen_visitor : @Arr.interLen = @Arr.interLenVisit := Arr.interLen_eq_visit
+
+/-- the generic merge with the counting visitor, from any count `n`: adds exactly the model's `interLen`; and the
+    counting visitor counts what the writing visitor writes — both for arbitrary (also ill-formed) slices -/
+theorem C08_interLen_visitor (l r : List Nat) (n : Nat) :
+    Arr.scalarAnd Arr.cardCounter l r n = n + Arr.interLen l r
+    ∧ Arr.interLenVisit l r = (Arr.andVisit l r).length :=
+  ⟨Arr.scalarAnd_cardCounter l r n, Arr.interLenVisit_eq_length l r⟩
+
+/-- on strictly ascending operands (array chunks of `Bitmap.WF` values) it is the cardinality of the intersection -/
+theorem C08_interLen_visitor_exact (l r : List Nat) (hl : Sorted l) (hr : Sorted r) :
+    ∃ v, Sorted v ∧ (∀ x, x ∈ v ↔ x ∈ l ∧ x ∈ r) ∧ Arr.interLenVisit l r = v.length :=
+  ⟨Arr.and l r, Arr.sorted_and l r hl hr, Arr.mem_and l r hl hr, by rw [Arr.interLenVisit_eq, Arr.interLen_eq]⟩
+
+example : Sorted [1, 5, 65535] ∧ Sorted [5, 6, 65535] := by simp [Sorted]
+example : Arr.interLenVisit [1, 5, 65535] [5, 6, 65535] = 2 := by decide +kernel
 
 end Roaring.C08
